@@ -47,6 +47,10 @@ def run(ck, rng):
             # ... or is transient ("n": fails once at that offset and would deliver the rest if asked again)
             cases.append("%sfout %d%s - 0 %s" % (pre, k, rng.choice(["", "", "c", "n"]), tail))
             meta.append(("reader", k, len(doc), total, doc, mode, massive, out0))
+        # the document in a regular file opened write-only: a real *os.File whose reads fail
+        if len(doc) > 0:
+            cases.append("%sfout w - 0 %s" % (pre, tail))
+            meta.append(("reader_osfile", 0, len(doc), total, doc, mode, massive, out0))
         # writer budgets
         if r0 == "ok":
             buds = range(total + 1) if total <= 120 and ck.tier == "thorough" else sorted(set(rng.sample(range(total + 1), min(10, total + 1)) + [0, max(0, total - 1), total]))
@@ -85,6 +89,8 @@ def run(ck, rng):
     def model_case(c):
         c = c[1:] if c.startswith("m") else c
         f = c.split(" ")
+        if f[0] == "fout" and f[1] == "w":
+            f[1] = "0"
         if f[0] == "fout" and f[1].endswith(("c", "n")):
             f[1] = f[1][:-1]
         if f[0] == "fout" and f[3] == "5":
@@ -108,7 +114,11 @@ def run(ck, rng):
         ck.count("mode:" + mode)
         bad = None
         rep = {}
-        if kind == "reader":
+        if kind == "reader_osfile":
+            if r == "ok":
+                bad = "every read of the input file fails (write-only descriptor) but the call returned nil"
+            model[i] = impl[i]
+        elif kind == "reader":
             if r != "err:reader":
                 bad = "the reader failed after %d of %d bytes but the call returned %s" % (k, dl, r)
                 # K4: the failure is inside a line whose delivered prefix is itself malformed
